@@ -29,6 +29,9 @@ def ncname(rng, maxlen=8, ascii_only=False):
 
 
 def text(rng, maxlen=14, chars=TEXT_CHARS, p_blank=0.2):
+    if rng.random() < 0.004:
+        # exactly at and around the sizes that buffers and small-integer caches care about
+        return rng.choice(["a", "é", "\U0001F600", "a b "]) * rng.choice([255, 256, 257, 1024, 4096])
     if rng.random() < p_blank:
         return "".join(rng.choice([" ", " ", "\t", "\n", "\xa0"] if "\n" in chars else [" ", "\xa0"]) for _ in range(rng.randint(1, 5)))
     return "".join(rng.choice(chars) for _ in range(rng.randint(1, maxlen)))
@@ -72,6 +75,9 @@ def random_doc(rng, size, names=None, p_comment=0.15, p_attr=0.4, p_ns=0.25, att
                     attrs.append((ap, al, val))
         items = []
         n_kids = 0 if depth > 12 else rng.choice([0, 0, 1, 2, 3, 5])
+        if rng.random() < 0.02 and depth <= 2:
+            n_kids = rng.choice([10, 11, 12])        # two-digit child positions
+            budget[0] += n_kids
         if rng.random() < 0.6:
             items.append(("text", text(rng, chars=text_chars)))
         for _ in range(n_kids):
